@@ -22,6 +22,11 @@ def run(repo, rep):
     rep.clause("C02-e", "published scratch / fast-scratch extents are the allocator totals of the root subgraph (single writer, single reader)")
     rep.undecided("that every emitted address lies inside the *published* tensor sizes (needs the allocator's addresses for a concrete network); exact strided footprints")
     rep.assume("Python asserts are enabled")
+    from .shared import idle_core_windows
+
+    rep.clause("C02-o", "every present core gets its weight and scale window programmed by every operation that has weights: an idle core gets length 0 (the registers are persistent; "
+               "check_mem_limits only sees the operation's own ranges)")
+    idle_core_windows(repo, rep, "C02-o")
     rule_a(repo, rep)
     rule_b(repo, rep)
     rule_c(repo, rep)
@@ -132,6 +137,7 @@ def run(repo, rep):
     rep.clause("C02-n", "the allocator total that is published as the extent of a memory type's tensor is compared with the hard limit of that memory type (the arena cache size for fast scratch under "
                "spilling) on the path that records it, and an excess is an error: the per-access check does not see alignment and brick padding")
     rule_published_total(repo, rep)
+    rule_batched_fc_view(repo, rep)
     rep.clause("C02-i", "byte offsets computed by graph rewrites use each tensor dimension in its layout position: 4-element shape unpackings name N,H,W,C (feature maps) / H,W,I,O (weights) in order")
     rule_shape_unpack(repo, rep)
 
@@ -425,8 +431,13 @@ def rule_weight_buffers(repo, rep):
     wc = repo.mod("weight_compressor")
     enc = wc.func("encode_weight_and_scale_tensor")
     rec = [st for st in ast.walk(enc) if isinstance(st, ast.Assign) and isinstance(st.targets[0], ast.Subscript) and norm(st.targets[0].value) == "double_buffer_sizes"]
-    if len(rec) != 1 or str(norm(rec[0].targets[0].slice)) != "idx % 2" or call_name(rec[0].value) != "max":
-        raise AnalysisError("encode_weight_and_scale_tensor: double_buffer_sizes[idx % 2] = max(...) not recognised")
+    if len(rec) != 1 or str(norm(rec[0].targets[0].slice)) != "idx % 2":
+        raise AnalysisError("encode_weight_and_scale_tensor: the store into double_buffer_sizes[idx % 2] was not found")
+    is_max = call_name(rec[0].value) == "max" and any(str(norm(a)) == "double_buffer_sizes[idx % 2]" for a in rec[0].value.args)
+    rep.check(is_max, "C02-f", "ethosu/vela/weight_compressor.py:encode_weight_and_scale_tensor", "double_buffer_sizes[idx % 2] is the running maximum over the slices of that parity",
+              f"`{str(norm(rec[0]))[:90]}`: the last slice of each parity decides the buffer size; an earlier, longer slice is copied past the end of the buffer")
+    if not is_max:
+        return
     mr = wc.func("NpuWeightTensor.max_range_bytes")
     if str(norm(mr.body[-1])) != "return max(self.double_buffer_sizes)":
         raise AnalysisError("NpuWeightTensor.max_range_bytes is no longer max(double_buffer_sizes)")
@@ -816,3 +827,59 @@ def rule_published_total(repo, rep):
               detail + ": with --optimise Size the scheduler's limit is the minimal schedule's peak, not the cache; accesses are checked, the rounded total is not (demonstrated: three 3x3 convolutions "
               "on 24x24x8, ethos-u65-256 Dedicated_Sram, --arena-cache-size 4600: scratch_fast tensor of 4608 bytes)")
     rep.floor("C02-n", 2)
+
+
+def rule_batched_fc_view(repo, rep):
+    """(p) a batched FULLY_CONNECTED is executed on a [1, h, w, C] view of its [n, C] tensors: the view has exactly n positions (h * w == n) for
+    every batch, for IFM and OFM alike. convert_batched_fc_shape is interpreted for n = 2 .. 40."""
+    import math as _m
+
+    from ..absint import AList, AObj, EnumMember, Interp, Unknown
+
+    rep.clause("C02-p", "the 4-D view a batched FULLY_CONNECTED is given covers exactly its batch (h * w == n for IFM and OFM, every n): a larger view reads and writes past the end of the [n, C] tensors")
+    go = repo.mod("tflite_graph_optimiser")
+    opm = repo.mod("operation")
+
+    def shape4d(i, a, k, n):
+        v = a[0] if a else None
+        items = v.items if isinstance(v, AList) else list(v) if isinstance(v, (list, tuple)) else list(a)
+        if len(items) != 4:
+            return Unknown("Shape4D")
+        return AObj("shape", {"batch": items[0], "height": items[1], "width": items[2], "depth": items[3]}, cls="Shape4D")
+
+    def num(f):
+        def g(i, a, k, n):
+            return f(a[0]) if a and isinstance(a[0], (int, float)) else Unknown("math(?)")
+        return g
+
+    unk = lambda i, a, k, n: Unknown("array")  # noqa: E731
+    ext = {"Shape4D": shape4d, "np.expand_dims": unk, "numpy.expand_dims": unk, "math.ceil": num(_m.ceil), "math.floor": num(_m.floor), "math.log2": num(_m.log2), "np.log2": num(_m.log2),
+           "numpy.log2": num(_m.log2), "math.sqrt": num(_m.sqrt), "math.isqrt": num(_m.isqrt)}
+    it = Interp(repo, go, externs=ext)
+    wrong = None
+    pts = 0
+    for n_ in range(2, 41):
+        def mk(n_=n_):
+            def sh():
+                return AObj("s", {"batch": n_, "height": 1, "width": 1, "depth": 8}, cls="Shape4D")
+
+            op = AObj("op", {"type": EnumMember(opm, opm.cls("Op"), "FullyConnected", None), "ifm_shapes": AList([sh()]), "ofm_shapes": AList([sh()]),
+                             "inputs": AList([Unknown("ifm"), AObj("weights", {"values": Unknown("values")})])})
+            return [op, Unknown("arch"), Unknown("nng")], {}
+
+        ps = [p for p in it.run("convert_batched_fc_shape", mk) if p.kind == "return"]
+        if not ps:
+            raise AnalysisError(f"convert_batched_fc_shape: no returning path for batch {n_}")
+        for p in ps:
+            op = p.args[0][0]
+            for side in ("ifm_shapes", "ofm_shapes"):
+                sh_ = op.fields[side].items[0]
+                h_, w_, b_ = sh_.fields.get("height"), sh_.fields.get("width"), sh_.fields.get("batch")
+                if not all(isinstance(x, int) for x in (h_, w_, b_)):
+                    raise AnalysisError(f"convert_batched_fc_shape: symbolic view ({b_}, {h_}, {w_}) for batch {n_}")
+                pts += 1
+                if (b_ != 1 or h_ * w_ != n_) and wrong is None:
+                    wrong = (n_, side, b_, h_, w_)
+    rep.check(wrong is None, "C02-p", "ethosu/vela/tflite_graph_optimiser.py:convert_batched_fc_shape", f"batch n becomes [1, h, w, C] with h * w == n ({pts} views, n = 2 .. 40)",
+              (f"batch {wrong[0]}: {wrong[1]}[0] becomes [{wrong[2]}, {wrong[3]}, {wrong[4]}, C], {wrong[3] * wrong[4]} positions for {wrong[0]} rows: boxes, strides and the coordinate assertions follow the "
+               "operator's view, so the operator reads and writes past the end of its tensors") if wrong else "")
